@@ -8,7 +8,7 @@ from ..ref import geom as G
 from ..runner import Acc
 
 ID = "C01"
-TOL = 2e-8
+TOL = 1e-9
 
 META = {
     "rule": "every (p1, p2, z) triple of the pose alphabet for odometry edges of each type and every (p1, offset, landmark, z) tuple for the four landmark kinds; "
@@ -19,7 +19,7 @@ META = {
         "oracle differentiates the implementation's own error function (C02 owns the error model, C09 the boxplus)",
         "each configuration is also evaluated a second time after an in-place edit of the first vertex's pose (history of length 2)",
         "SE(2) angular error is unwrapped by multiples of 2 pi before differencing (the property excludes the wrap set); SE(3) rotational error sign is aligned when |q_vec| > 0.5",
-        "tolerance 2e-8 x (1 + sum of translation magnitudes in the configuration) (5-point oracle accurate to ~1e-11 relative; measured ratio <= 1e-4)",
+        "tolerance 1e-9 x (1 + sum of translation magnitudes in the configuration) (5-point oracle accurate to ~1e-11 relative; measured ratio <= 1e-4)",
     ],
     "required_classes": ["odo:R2", "odo:R3", "odo:SE2", "odo:SE3", "lm:SE2", "lm:SE3", "lm:R2", "lm:R3", "w_negative", "w_zero", "offset_rotated", "angle_seam"],
     "bounds": {
@@ -44,6 +44,12 @@ def _offs(kind, tier, seed):
     if len(ps) > 60:
         step = len(ps) / 60.0
         ps = [ps[int(i * step)] for i in range(60)]
+    # near-degenerate geometry: offsets rotated by a few 1e-7 rad (genuinely small but non-zero partial derivatives)
+    if kind == "SE2":
+        ps = ps + [[0.5, -0.25, 4e-7], [0.0, 0.0, -3e-7]]
+    elif kind == "SE3":
+        tiny = A.unit([2e-7, -3e-7, 1e-7, 1.0])
+        ps = ps + [[0.5, -0.25, 0.1] + tiny, [0.0, 0.0, 0.0] + tiny]
     return ps
 
 
@@ -167,6 +173,12 @@ def _eval(case):
                 continue
             if np.any((np.abs(Ja) > 1e-12) & (np.abs(np.abs(Ja) - 1.0) > 1e-12)):
                 nontriv = True
+            if kind in ("R2", "R3"):
+                # linear edges: the derivative is an exact constant matrix (entries -1, 0, +1); nothing justifies even 1e-10 of error
+                Jx = np.round(Jn)
+                dx_ = float(np.max(np.abs(Ja - Jx)))
+                if float(np.max(np.abs(Jn - Jx))) < 1e-6 and dx_ > 1e-13:
+                    msgs.append("R^n edge: Jacobian %d differs from the exact constant derivative by %.3g" % (vi, dx_))
             diff = np.abs(Ja - Jn)
             k = int(np.argmax(diff))
             dmax = float(diff.ravel()[k])
